@@ -617,16 +617,27 @@ func (s staticKeySet) VerifySignature(ctx context.Context, jws *jose.JSONWebSign
 }
 
 func RunC09(t *testing.T, spec kernel.Spec) *kernel.Outcome {
-	router := []string{"A", "B"}[spec.Seed%2]
+	// three worlds in four are fault sweeps: every storage-call position of one flow on one router fails once; the
+	// request must still be answered exactly once and must not carry on after an error answer. The fourth is the
+	// catalogue world.
+	if spec.Params["mode"] != "catalogue" && (spec.Seed%4 != 0 || spec.Params["mode"] == "sweep") {
+		j := (spec.Seed/4)*3 + (spec.Seed%4+3-1)%3
+		o := runFaultSweep(t, spec, "C09", int(j%uint64(len(faultFlows)*2)))
+		o.Probe("fault-sweep-worlds")
+		o.ProbeN("fault-sweep-cases", o.Steps)
+		return o
+	}
+	cs := spec.Seed / 4 // configuration selector of the catalogue worlds
+	router := []string{"A", "B"}[cs%2]
 	if spec.Params["router"] != "" {
 		router = spec.Params["router"]
 	}
 	o := inBubble(t, spec, func(o *kernel.Outcome, tape *kernel.Tape) {
-		caps := world.Caps{ClientCredentials: true, TokenExchange: true, Device: true, FromRequest: spec.Seed%3 == 0}
+		caps := world.Caps{ClientCredentials: true, TokenExchange: true, Device: true, FromRequest: cs%3 == 0}
 		w, err := world.NewStd(o, tape, world.StdOptions{Router: router, ForceCaps: &caps, AllGrants: true, ForceConfig: func(c *op.Config) {
 			c.AuthMethodPrivateKeyJWT, c.GrantTypeRefreshToken, c.RequestObjectSupported, c.AuthMethodPost = true, true, true, true
-			if spec.Seed%5 == 1 { // degenerate user-code configurations
-				c.DeviceAuthorization.UserCode = []op.UserCodeConfig{{CharSet: "", CharAmount: 8, DashInterval: 4}, {CharSet: "AB", CharAmount: 0, DashInterval: 4}, {CharSet: "äöü", CharAmount: 3, DashInterval: 0}, {CharSet: "A", CharAmount: 1, DashInterval: -1}}[(spec.Seed/5)%4]
+			if cs%5 == 1 { // degenerate user-code configurations
+				c.DeviceAuthorization.UserCode = []op.UserCodeConfig{{CharSet: "", CharAmount: 8, DashInterval: 4}, {CharSet: "AB", CharAmount: 0, DashInterval: 4}, {CharSet: "äöü", CharAmount: 3, DashInterval: 0}, {CharSet: "A", CharAmount: 1, DashInterval: -1}}[(cs/5)%4]
 			}
 		}})
 		if err != nil {
